@@ -226,6 +226,9 @@ def run_unit(name, repo, workdir, rlimit=DEFAULT_RLIMIT, seed=0, vacuity=True):
     """Generate + verify one unit. Returns dict with everything the classifier needs."""
     unit = weave.load_unit(name)
     out = dict(unit=name)
+    # a unit may ask for a larger per-function resource limit (contracts/<unit>.py RLIMIT): the limit is a guard against
+    # divergence, not a verdict; the unit `quoting` has one function whose cost varies 54-126 M units with the solver seed
+    rlimit = max(rlimit, getattr(unit, 'RLIMIT', 0))
     isolate = {}
     # Item isolation: when ONE function can no longer be brought into the verifier (a rewrite pattern or proof anchor
     # no longer matches, or Verus rejects a construct in it), that function is kept as a bare signature with its
